@@ -177,31 +177,34 @@ class SmartSyncState(SyncState):
         # this implies a remote walk on startup, otherwise autosynced items won't autosync until an event shows up
         # do we want to do the autosync calculation on every do()? Or perhaps flag each entry that the
         #     autosync calculation has been done, and no need to do it again... if so, don't persist that flag
-        changes = set()
-        for ent in self._changeset_storage.copy():  # take a copy to ensure the set doesn't change during iteration
-            if ent in self.excludeset and not ent[LOCAL].changed:
-                self._nmgr.notify(Notification(SourceEnum.REMOTE, NotificationType.SYNC_SMART_UNSYNCED, ent[REMOTE].path))
-                continue
+        # this getter requests entries (auto-sync callbacks), and is reachable from application threads
+        # through busy / change_count, so it has to hold the state lock like every other mutator
+        with self.lock:
+            changes = set()
+            for ent in self._changeset_storage.copy():  # take a copy to ensure the set doesn't change during iteration
+                if ent in self.excludeset and not ent[LOCAL].changed:
+                    self._nmgr.notify(Notification(SourceEnum.REMOTE, NotificationType.SYNC_SMART_UNSYNCED, ent[REMOTE].path))
+                    continue
 
-            included = False
-            if ent in self.requestset:
-                included = True
-            elif ent[REMOTE].otype == DIRECTORY:
-                included = True  # simplifies syncing files, avoids needing to sync the parent(s) later
-            elif (ent[REMOTE].changed or ent[LOCAL].changed) and not ent.is_latest():
-                included = True  # needs a get_latest() at least
-            elif not ent[LOCAL].oid:  # this means the entry is not currently synced locally
-                for callback in self._callbacks:
-                    if ent[REMOTE].path and callback(ent[REMOTE].path):
-                        self._smart_sync_ent(ent)
-                        included = True
-                        break
+                included = False
+                if ent in self.requestset:
+                    included = True
+                elif ent[REMOTE].otype == DIRECTORY:
+                    included = True  # simplifies syncing files, avoids needing to sync the parent(s) later
+                elif (ent[REMOTE].changed or ent[LOCAL].changed) and not ent.is_latest():
+                    included = True  # needs a get_latest() at least
+                elif not ent[LOCAL].oid:  # this means the entry is not currently synced locally
+                    for callback in self._callbacks:
+                        if ent[REMOTE].path and callback(ent[REMOTE].path):
+                            self._smart_sync_ent(ent)
+                            included = True
+                            break
 
-            if included:
-                changes.add(ent)
+                if included:
+                    changes.add(ent)
 
-        # intersection protects against changeset having changed, and intersection iterates in C, so it is atomic here
-        return changes.intersection(self._changeset_storage)
+            # intersection protects against changeset having changed, and intersection iterates in C, so it is atomic here
+            return changes.intersection(self._changeset_storage)
 
     @_changeset.setter
     def _changeset(self, value):
@@ -334,30 +337,32 @@ class SmartCloudSync(CloudSync):
         return ent
 
     def smart_unsync_oid(self, remote_oid):
-        ent: SyncEntry = self.state.lookup_oid(REMOTE, remote_oid)
-        if not ent:
-            raise ex.CloudFileNotFoundError(remote_oid)
-        self._smart_unsync_ent(ent)
-        ent = self.state.smart_unsync_oid(remote_oid)
-        return ent[LOCAL].path
+        with self.state.lock:
+            ent: SyncEntry = self.state.lookup_oid(REMOTE, remote_oid)
+            if not ent:
+                raise ex.CloudFileNotFoundError(remote_oid)
+            self._smart_unsync_ent(ent)
+            ent = self.state.smart_unsync_oid(remote_oid)
+            return ent[LOCAL].path
 
     def smart_unsync_path(self, path, side):
         """Delete a file locally, but leave it in the cloud"""
         remote_path = self._ensure_path_remote(path, side)
         if not remote_path:
             return None
-        state_ents = self.state.lookup_path(REMOTE, remote_path)
-        ents: set = self.state.requestset.intersection(state_ents)
-        if not ents:
-            return None
-        found_ents = set()
-        for ent in ents:
-            found = self._smart_unsync_ent(ent)
-            if found:
-                found_ents.add(found)
-        for ent in found_ents:
-            self.state.smart_unsync_ent(ent)
-        return found_ents
+        with self.state.lock:
+            state_ents = self.state.lookup_path(REMOTE, remote_path)
+            ents: set = self.state.requestset.intersection(state_ents)
+            if not ents:
+                return None
+            found_ents = set()
+            for ent in ents:
+                found = self._smart_unsync_ent(ent)
+                if found:
+                    found_ents.add(found)
+            for ent in found_ents:
+                self.state.smart_unsync_ent(ent)
+            return found_ents
 
     def _smart_sync_ent(self, ent: SyncEntry) -> bool:
         """Request to sync down a file from the cloud, and mark the entry to maintain synchronization."""
@@ -371,21 +376,23 @@ class SmartCloudSync(CloudSync):
             return self._sync_one_entry(ent)
 
     def smart_sync_oid(self, remote_oid):
-        ent: SyncEntry = self.state.smart_sync_oid(remote_oid)
-        if not ent:
-            raise ex.CloudFileNotFoundError(remote_oid)
-        self._smart_sync_ent(ent)
-        return ent[LOCAL].path
+        with self.state.lock:
+            ent: SyncEntry = self.state.smart_sync_oid(remote_oid)
+            if not ent:
+                raise ex.CloudFileNotFoundError(remote_oid)
+            self._smart_sync_ent(ent)
+            return ent[LOCAL].path
 
     def smart_sync_path(self, path, side):
         remote_path = self._ensure_path_remote(path, side)
-        try:
-            ents = self.state.smart_sync_path(remote_path)
-        except ex.CloudException as e:
-            self.nmgr.notify_from_exception(SourceEnum.SYNC, e, remote_path)
-            raise
-        for ent in ents:
-            self._smart_sync_ent(ent)
+        with self.state.lock:
+            try:
+                ents = self.state.smart_sync_path(remote_path)
+            except ex.CloudException as e:
+                self.nmgr.notify_from_exception(SourceEnum.SYNC, e, remote_path)
+                raise
+            for ent in ents:
+                self._smart_sync_ent(ent)
 
     def smart_listdir_path(self, local_path):
         """
@@ -450,13 +457,14 @@ class SmartCloudSync(CloudSync):
         remote_path = self.translate(REMOTE, local_path)
         log.info("Smart delete path %s", local_path)
         if remote_path:
-            ents = self.state.lookup_path(REMOTE, remote_path)
-            if ents:
-                ent = ents[0]
-                ent[REMOTE].changed = 0
-                self.state.update_entry(ent, LOCAL, local_oid, path=local_path, changed=True, exists=False)
-                self.state.requestset.add(ent)
-                self.state.excludeset.discard(ent)
+            with self.state.lock:
+                ents = self.state.lookup_path(REMOTE, remote_path)
+                if ents:
+                    ent = ents[0]
+                    ent[REMOTE].changed = 0
+                    self.state.update_entry(ent, LOCAL, local_oid, path=local_path, changed=True, exists=False)
+                    self.state.requestset.add(ent)
+                    self.state.excludeset.discard(ent)
 
     def smart_rename(self, side, oid, new_path) -> str:
         """smartsync aware rename"""
